@@ -146,6 +146,12 @@ fn render_point(p: &Value) -> (String, String, Vec<String>) {
             let cname = if early { "AACLS" } else { "ZZCLS" };
             let cls = format!("{cname} ::= CLASS {{ &id INTEGER (0..255) UNIQUE, &Type }}");
             let host = p["host"].as_str().unwrap_or("plain");
+            if host == "two_classes_seq" || host == "two_classes_set" {
+                let k = if host == "two_classes_seq" { "SEQUENCE" } else { "SET" };
+                let other = "OTHERCLS ::= CLASS { &id OBJECT IDENTIFIER UNIQUE, &Type }";
+                return (format!("{cls}\n{other}\nMfld ::= {k} {{ a {cname}.&id, b OTHERCLS.&id, c {cname}.&id OPTIONAL }}"),
+                        format!("{cls}\n{other}\nMfld ::= {k} {{ a INTEGER (0..255), b OBJECT IDENTIFIER, c INTEGER (0..255) OPTIONAL }}"), vec!["Mfld".into()]);
+            }
             if host != "plain" {
                 // F stands for the field type in the sugared module and for the field's type in the expanded one
                 let body = match host {
